@@ -250,6 +250,29 @@ def run(rep, tier, seed):
                                    obligation="hypotheses of Properties.C12.error_is_first_offender"), found_input=False)
             else:
                 nval += 1
+    # the hypotheses of glr_positions_exact on the REAL LALR_RN table of every GLR case
+    glr_items = [r for r in results if r.case.run == "GLR" and r.status == "OK" and r.dump is not None]
+    gj = []
+    for k0 in range(0, len(glr_items), 8):
+        chunk = glr_items[k0:k0 + 8]
+        body = ["From RV Require Import Spec.Validators Spec.ValidatorsRN.\nOpen Scope nat_scope.\n"]
+        for r in chunk:
+            body.append("Eval vm_compute in let g := %s in let T := %s in [wf_grammar_b g; sound_rn_b g T; complete_rn_b g T; "
+                        "viable_b g T]." % (gl_grammar(r.dump), gl_table(r.dump)))
+        gj.append(("c12g_%d" % (k0 // 8), "\n".join(body) + "\n", chunk))
+    nval_glr = 0
+    for (name, body, chunk), (ok, out) in zip(gj, coq_eval_many([(j[0], j[1]) for j in gj])):
+        ans = parse_bools(out) if ok else []
+        for j, r in enumerate(chunk):
+            v = ans[j] if j < len(ans) else None
+            if v is None:
+                rep.violation("coq-eval", "Coq evaluation failed", dict(grammar=r.case.grammar, out=out[-800:]), found_input=False)
+            elif not all(v):
+                rep.violation("validator-glr", "wf/sound_rn/complete_rn/viable false on the real LALR_RN table of an in-scope grammar",
+                              dict(grammar=r.case.grammar, table=r.case.table, algo="GLR", vals=v,
+                                   obligation="hypotheses of Properties.C12.glr_positions_exact"), found_input=False)
+            else:
+                nval_glr += 1
     ev = BC.byte_jobs("c12", lr_items)
     for tag, r, texts in lr_items:
         e = ev.get(tag, {})
@@ -263,7 +286,8 @@ def run(rep, tier, seed):
     pt = rep.theorems or {}
     nthm = len(pt.get("theorems", []))
     rep.coverage = dict(
-        obligations=nthm + nval, discharged=(pt.get("closed", 0) if not rep.violations else 0) + nval,
+        obligations=nthm + nval + nval_glr, discharged=(pt.get("closed", 0) if not rep.violations else 0) + nval + nval_glr,
+        glr_tables_validated=nval_glr,
         checker_cmd="make -C coq Properties/C12.vo ; coqc work/c12v_*.v",
         trusted_base=TRUSTED_BASE + ["Earley viable-prefix oracle (gen/c12.py, Python) for the 'no late detection' half"],
         theorems=pt.get("theorems", []), programs=len(lr_items), evaluations=n_err + n_sent, distinct_nontrivial=n_checked,
